@@ -5,7 +5,7 @@ use crate::util::*;
 use serde_json::{json, Value};
 use std::os::unix::fs::FileExt;
 use vm_memory::mmap::{MmapRegionBuilder, MmapRegionError};
-use vm_memory::{Bytes, FileOffset, GuestAddress, GuestRegionMmap, MemoryRegionAddress, MmapRegion};
+use vm_memory::{Bytes, FileOffset, GuestAddress, GuestMemoryRegion, GuestRegionMmap, MemoryRegionAddress, MmapRegion};
 
 #[derive(Default)]
 pub struct CtorExec {
@@ -40,6 +40,32 @@ fn err_name(e: &MmapRegionError) -> &'static str {
 
 impl Exec for CtorExec {
     fn step(&mut self, line: &Value) -> Value {
+        if line["op"] == "wrap" {
+            // a file-backed mapping given a guest range: GuestRegionMmap::new(mapping, base)
+            self.n += 1;
+            let size = us(line, "size");
+            let gbase = u(line, "gbase");
+            let name = format!("/tmp/vmh-ctor-{}-{}", std::process::id(), self.n);
+            let f = std::fs::OpenOptions::new().read(true).write(true).create(true).truncate(true).open(&name).expect("harness: file");
+            f.set_len(3 * 4096).unwrap();
+            let before = mapped_bytes_of(&name);
+            let mut r = guarded(|| {
+                let region = MmapRegionBuilder::<()>::new(size)
+                    .with_file_offset(FileOffset::new(f.try_clone().expect("harness: dup"), 0))
+                    .with_mmap_prot(libc::PROT_READ | libc::PROT_WRITE)
+                    .with_mmap_flags(libc::MAP_SHARED | libc::MAP_NORESERVE)
+                    .build()
+                    .expect("harness: build");
+                let mapped = mapped_bytes_of(&name);
+                match GuestRegionMmap::new(region, GuestAddress(gbase)) {
+                    Ok(g) => json!({"k": "ok", "start": g.start_addr().0, "len": g.len(), "last": g.last_addr().0, "mapped": mapped}),
+                    Err(_) => json!({"k": "err", "e": "InvalidGuestRegion"}),
+                }
+            });
+            r["left_mapped"] = json!(mapped_bytes_of(&name).saturating_sub(before));
+            let _ = std::fs::remove_file(&name);
+            return json!({"op": "wrap", "a": line["a"], "r": r});
+        }
         self.n += 1;
         let kind = s(line, "kind").to_string();
         let api = line["a"]["api"].as_str().unwrap_or("builder").to_string();
